@@ -332,6 +332,268 @@ theorem law_of_cosines (hr : IsSqrt r) (ph v₁ v₂ : Fin (n + 1) → K)
   rw [abs_of_neg (by apply div_neg_of_neg_of_pos <;> [linarith; positivity])]
   field_simp
 
+/-- the clamp added to `TangentVector.angle` is a no-op in exact arithmetic: the product of
+the two normalised tangent directions lies in `[-1, 1]` (Cauchy–Schwarz on `p^⊥`) -/
+theorem angle_clamp_noop (hr : IsSqrt r) (p v₁ v₂ : Fin (n + 1) → K) (hp : mink p p < 0)
+    (h₁ : 0 < mink (projHyp p v₁) (projHyp p v₁)) (h₂ : 0 < mink (projHyp p v₂) (projHyp p v₂)) :
+    angleCosClamped r p v₁ v₂ = angleCos r p v₁ v₂ := by
+  have hcs := cs_on_complement (projHyp p v₁) (projHyp p v₂) p hp
+    (mink_projHyp_base p v₁ hp.ne) (mink_projHyp_base p v₂ hp.ne)
+  have e := angleCos_eq hr p v₁ v₂ hp h₁ h₂
+  have r1 := hr.pos h₁
+  have r2 := hr.pos h₂
+  have s1 := (hr _ h₁.le).2
+  have s2 := (hr _ h₂.le).2
+  have hsq : angleCos r p v₁ v₂ ^ 2 ≤ 1 := by
+    rw [e, div_pow, div_le_one (by positivity)]
+    calc mink (projHyp p v₁) (projHyp p v₂) ^ 2
+        ≤ mink (projHyp p v₁) (projHyp p v₁) * mink (projHyp p v₂) (projHyp p v₂) := hcs
+      _ = (r (mink (projHyp p v₁) (projHyp p v₁)) * r (mink (projHyp p v₂) (projHyp p v₂))) ^ 2 := by
+          rw [mul_pow, pow_two, pow_two, s1, s2]
+  have hlo : -1 ≤ angleCos r p v₁ v₂ := by
+    by_contra h; rw [not_le] at h; nlinarith
+  have hhi : angleCos r p v₁ v₂ ≤ 1 := by
+    by_contra h; rw [not_le] at h; nlinarith
+  unfold angleCosClamped
+  rw [min_eq_right hhi, max_eq_right hlo]
+
+/-! ## regular polygons -/
+
+/-- `Polygon.regular_polygon`: every vertex is `(1, th·a, th·b, 0, …)` with `a² + b² = 1`
+(Klein coordinates `th·(a, b, 0, …)`, `th = tanh r`), so all vertices are at the same distance
+from the origin as the start vertex -/
+theorem polygon_equal_radii (c s th : K) (hcs : c ^ 2 + s ^ 2 = 1) (i : ℕ) :
+    mink (polyStart (n := n) 0) (polyVertex c s th i) = -1 ∧
+    mink (polyVertex (n := n) c s th i) (polyVertex c s th i) = -1 + th ^ 2 ∧
+    coshDist r (polyStart (n := n) 0) (polyVertex c s th i)
+      = coshDist r (polyStart (n := n) 0) (polyVertex c s th 0) := by
+  have hrad : ∀ i, mink (polyStart (n := n) 0) (polyVertex c s th i) = -1 := by
+    intro i
+    obtain ⟨a, b, _, hv⟩ := polyVertex_form (n := n) c s th hcs i
+    rw [hv]; unfold polyStart
+    have : (fun _ => (0 : K)) = (Fin.cons 0 (fun _ => 0) : Fin (n + 1) → K) := by
+      funext i; refine Fin.cases ?_ (fun j => ?_) i <;> simp
+    rw [this, mink_cons3, dot_zero_left]; ring
+  have hself : ∀ i, mink (polyVertex (n := n) c s th i) (polyVertex c s th i) = -1 + th ^ 2 :=
+    fun i => (gram_polyVertex c s th hcs i).1
+  refine ⟨hrad i, hself i, ?_⟩
+  unfold coshDist normalize
+  rw [hself i, hself 0]
+  by_cases h0 : r |-1 + th ^ 2| = 0
+  · simp only [h0, if_true]
+    split_ifs <;> simp [mink_div_left, hrad i, hrad 0]
+  · simp only [h0, if_false]
+    split_ifs <;> simp [mink_div_left, mink_div_right, hrad i, hrad 0]
+
+/-- consecutive vertices are at the same distance: the sides are equal -/
+theorem polygon_equal_sides (c s th : K) (hcs : c ^ 2 + s ^ 2 = 1) (i : ℕ) :
+    mink (polyVertex (n := n) c s th i) (polyVertex c s th (i + 1)) = -1 + th ^ 2 * c ∧
+    coshDist r (polyVertex (n := n) c s th i) (polyVertex c s th (i + 1))
+      = coshDist r (polyVertex (n := n) c s th 0) (polyVertex c s th 1) := by
+  have hside : ∀ i, mink (polyVertex (n := n) c s th i) (polyVertex c s th (i + 1))
+      = -1 + th ^ 2 * c := fun i => (gram_polyVertex c s th hcs i).2.1
+  have hself : ∀ i, mink (polyVertex (n := n) c s th i) (polyVertex c s th i) = -1 + th ^ 2 :=
+    fun i => (gram_polyVertex c s th hcs i).1
+  refine ⟨hside i, ?_⟩
+  unfold coshDist normalize
+  rw [hself i, hself (i + 1), hself 0, hself 1]
+  by_cases h0 : r |-1 + th ^ 2| = 0
+  · simp only [h0, if_true]; rw [hside i, hside 0]
+  · simp only [h0, if_false]
+    rw [mink_div_left, mink_div_right, mink_div_left, mink_div_right, hside i]
+    have := hside 0; simp only [Nat.zero_add] at this; rw [this]
+
+/-- the interior angle at every vertex: with `S = sinh² r` (so `th² = S/(1+S)`) and
+`g = sin²(π/n)` (so `c = cos(2π/n) = 1 - 2g`) the cosine that `TangentVector.angle` computes
+between the directions to the two neighbours is `(gS - 1 + 2g)/(1 + gS)`, independent of the
+vertex -/
+theorem polygon_vertex_angle (hr : IsSqrt r) (c s th g S : K) (hcs : c ^ 2 + s ^ 2 = 1)
+    (hc : c = 1 - 2 * g) (hS : 0 < S) (hth : th ^ 2 = S / (1 + S)) (hg0 : 0 < g) (hg1 : g < 1)
+    (i : ℕ) :
+    let x := polyVertex (n := n) c s th (i + 1)
+    angleCos r x (fun j => polyVertex c s th i j - x j) (fun j => polyVertex c s th (i + 2) j - x j)
+      = polyAngleCos g S := by
+  intro x
+  obtain ⟨g00, g01, g02⟩ := gram_polyVertex (n := n) c s th hcs i
+  obtain ⟨g11, g12, _⟩ := gram_polyVertex (n := n) c s th hcs (i + 1)
+  obtain ⟨g22, _, _⟩ := gram_polyVertex (n := n) c s th hcs (i + 2)
+  have i2 : i + 1 + 1 = i + 2 := by ring
+  rw [i2] at g12
+  have hS1 : (1 + S) ≠ 0 := by linarith
+  have hxx : mink x x = -1 / (1 + S) := by
+    show mink (polyVertex c s th (i + 1)) (polyVertex c s th (i + 1)) = _
+    rw [g11, hth]; field_simp; ring
+  have hx : mink x x < 0 := by rw [hxx]; apply div_neg_of_neg_of_pos <;> linarith
+  -- Gram data of the two difference vectors
+  set y : Fin (n + 3) → K := fun j => polyVertex c s th i j - x j with hy
+  set z : Fin (n + 3) → K := fun j => polyVertex c s th (i + 2) j - x j with hz
+  have hyx : mink y x = th ^ 2 * (c - 1) := by
+    rw [hy, mink_sub_left]
+    show mink (polyVertex c s th i) (polyVertex c s th (i + 1))
+      - mink (polyVertex c s th (i + 1)) (polyVertex c s th (i + 1)) = _
+    rw [g01, g11]; ring
+  have hzx : mink z x = th ^ 2 * (c - 1) := by
+    rw [hz, mink_sub_left]
+    show mink (polyVertex c s th (i + 2)) (polyVertex c s th (i + 1))
+      - mink (polyVertex c s th (i + 1)) (polyVertex c s th (i + 1)) = _
+    rw [mink_comm, g12, g11]; ring
+  have hyy : mink y y = 2 * th ^ 2 * (1 - c) := by
+    rw [hy, mink_sub_left, mink_sub_right, mink_sub_right]
+    show mink (polyVertex c s th i) (polyVertex c s th i)
+      - mink (polyVertex c s th i) (polyVertex c s th (i + 1))
+      - (mink (polyVertex c s th (i + 1)) (polyVertex c s th i)
+        - mink (polyVertex c s th (i + 1)) (polyVertex c s th (i + 1))) = _
+    rw [g00, g01, mink_comm (polyVertex c s th (i + 1)), g01, g11]; ring
+  have hzz : mink z z = 2 * th ^ 2 * (1 - c) := by
+    rw [hz, mink_sub_left, mink_sub_right, mink_sub_right]
+    show mink (polyVertex c s th (i + 2)) (polyVertex c s th (i + 2))
+      - mink (polyVertex c s th (i + 2)) (polyVertex c s th (i + 1))
+      - (mink (polyVertex c s th (i + 1)) (polyVertex c s th (i + 2))
+        - mink (polyVertex c s th (i + 1)) (polyVertex c s th (i + 1))) = _
+    rw [g22, mink_comm (polyVertex c s th (i + 2)), g12, g11]; ring
+  have hyz : mink y z = 2 * th ^ 2 * c * (c - 1) := by
+    rw [hy, hz, mink_sub_left, mink_sub_right, mink_sub_right]
+    show mink (polyVertex c s th i) (polyVertex c s th (i + 2))
+      - mink (polyVertex c s th i) (polyVertex c s th (i + 1))
+      - (mink (polyVertex c s th (i + 1)) (polyVertex c s th (i + 2))
+        - mink (polyVertex c s th (i + 1)) (polyVertex c s th (i + 1))) = _
+    rw [g02, g01, g12, g11]; ring
+  -- norms of the projected vectors: N = 4 g S (1 + g S) / (1 + S)
+  have hN : ∀ w : Fin (n + 3) → K, mink w x = th ^ 2 * (c - 1) → mink w w = 2 * th ^ 2 * (1 - c) →
+      mink (projHyp x w) (projHyp x w) = 4 * g * S * (1 + g * S) / (1 + S) := by
+    intro w h1 h2
+    rw [mink_projHyp x w w hx.ne, h1, h2, hxx, hth, hc]; field_simp; ring
+  have hNpos : 0 < 4 * g * S * (1 + g * S) / (1 + S) := by positivity
+  have hNy := hN y hyx hyy
+  have hNz := hN z hzx hzz
+  rw [angleCos_eq hr x y z hx (by rw [hNy]; exact hNpos) (by rw [hNz]; exact hNpos), hNy, hNz,
+    (hr _ hNpos.le).2, mink_projHyp x y z hx.ne, hyz, hyx, hzx, hxx, hth, hc]
+  unfold polyAngleCos
+  have : (1 + g * S) ≠ 0 := by positivity
+  field_simp
+  ring
+
+/-- `regular_polygon_radius` and `polygon_interior_angle` are mutually inverse at the level of
+their algebraic cores: with `A = cos²(a/2)`, `g = sin²(π/n)`, the radius formula's
+`S = sinh² r = (A - g)/((1 - A) g)` turns the vertex-angle cosine into `2A - 1 = cos a` and
+the angle formula's `sin²(a/2) = (1 - g)/(1 + gS)` into `1 - A`; conversely the angle
+formula's `A = 1 - (1-g)/(1+gS)` gives back `S` -/
+theorem polygon_radius_angle_core (A g S : K) (hA : A ≠ 1) (hg0 : g ≠ 0) (hg1 : g ≠ 1) :
+    polyAngleCos g (polyRadiusSinhSq A g) = 2 * A - 1 ∧
+    polyAngleSinSq g (polyRadiusSinhSq A g) = 1 - A ∧
+    (1 + g * S ≠ 0 → polyAngleCos g S = 1 - 2 * polyAngleSinSq g S) ∧
+    (1 + g * S ≠ 0 → polyRadiusSinhSq (1 - polyAngleSinSq g S) g = S) := by
+  have h1 : (1 - A) ≠ 0 := sub_ne_zero.2 (Ne.symm hA)
+  have h2 : (1 - g) ≠ 0 := sub_ne_zero.2 (Ne.symm hg1)
+  have hden : 1 + g * polyRadiusSinhSq A g = (1 - g) / (1 - A) := by
+    unfold polyRadiusSinhSq; field_simp; ring
+  refine ⟨?_, ?_, ?_, ?_⟩
+  · unfold polyAngleCos; rw [hden]; unfold polyRadiusSinhSq; field_simp; ring
+  · unfold polyAngleSinSq; rw [hden]; field_simp
+  · intro h
+    unfold polyAngleCos polyAngleSinSq
+    field_simp; ring
+  · intro h
+    have e1 : 1 - polyAngleSinSq g S - g = g * S * (1 - g) / (1 + g * S) := by
+      unfold polyAngleSinSq; field_simp; ring
+    have e2 : (1 - (1 - polyAngleSinSq g S)) * g = (1 - g) * g / (1 + g * S) := by
+      unfold polyAngleSinSq; field_simp; ring
+    unfold polyRadiusSinhSq
+    rw [e1, e2]
+    field_simp
+
 end generic
+
+/-! ## instantiation at ℝ -/
+
+section real
+variable {n : ℕ}
+open Real
+
+/-- `hyp_to_affine_dist(t) = (e^{2t} - 1)/(1 + e^{2t}) = tanh t` -/
+theorem hyp_to_affine_dist_eq_tanh (t : ℝ) : hypToAffine (Real.exp (2 * t)) = Real.tanh t := by
+  have h := hypToAffine_eq (Real.exp t) (Real.exp_pos t)
+  have e2 : Real.exp t ^ 2 = Real.exp (2 * t) := by rw [← Real.exp_nat_mul]; norm_num
+  rw [e2] at h
+  rw [h, Real.tanh_eq_sinh_div_cosh, Real.sinh_eq, Real.cosh_eq, Real.exp_neg]
+  congr 1 <;> ring
+
+/-- **the point at distance `t` along a unit tangent vector lies at hyperbolic distance `|t|`**
+from the base point, for either sign of `t` -/
+theorem pointAlong_hdist (ph vh : Fin (n + 1) → ℝ) (hp : mink ph ph = -1) (hv : mink vh vh = 1)
+    (hpv : mink ph vh = 0) (t : ℝ) :
+    C01.hdist ph (pointAlong ph vh (hypToAffine (Real.exp (2 * t)))) = |t| := by
+  rw [hyp_to_affine_dist_eq_tanh, Real.tanh_eq_sinh_div_cosh]
+  have hc := Real.cosh_pos t
+  have hcs : Real.cosh t ^ 2 - Real.sinh t ^ 2 = 1 := by rw [Real.cosh_sq t]; ring
+  have hd := pointAlong_dist C01.isSqrt_real ph vh (Real.cosh t) (Real.sinh t) hp hv hpv hc hcs
+  unfold C01.hdist coshDistClamped
+  rw [hd, max_eq_right (Real.one_le_cosh t), ← Real.cosh_abs, Real.arcosh_cosh (abs_nonneg t)]
+
+/-- `regular_polygon_radius(n, a)` over ℝ -/
+noncomputable def polyRadius (k : ℕ) (a : ℝ) : ℝ :=
+  Real.arsinh (Real.sqrt ((Real.cos (a / 2) ^ 2 - Real.sin (π / k) ^ 2)
+    / ((Real.sin (a / 2) * Real.sin (π / k)) ^ 2)))
+
+/-- `polygon_interior_angle(n, r)` over ℝ -/
+noncomputable def polyAngle (k : ℕ) (ρ : ℝ) : ℝ :=
+  2 * Real.arcsin (Real.cos (π / k) / Real.sqrt (1 + (Real.sin (π / k) * Real.sinh ρ) ^ 2))
+
+/-- **the radius and angle formulas are mutual inverses** (angle side): for `n ≥ 3` and an
+admissible interior angle `a ∈ (0, (n-2)π/n)`, `polygon_interior_angle(n,
+regular_polygon_radius(n, a)) = a` -/
+theorem radius_angle_inverse (k : ℕ) (hk : 3 ≤ k) (a : ℝ) (ha0 : 0 < a)
+    (ha1 : a < (k - 2) * π / k) : polyAngle k (polyRadius k a) = a := by
+  have hk0 : (0 : ℝ) < k := by exact_mod_cast (by omega : 0 < k)
+  have hk3 : (3 : ℝ) ≤ k := by exact_mod_cast hk
+  have hγ0 : 0 < π / k := div_pos Real.pi_pos hk0
+  have hγ1 : π / k ≤ π / 3 := by
+    apply div_le_div_of_nonneg_left Real.pi_pos.le (by norm_num) hk3
+  have hαγ : a / 2 + π / k < π / 2 := by
+    have : (k - 2) * π / k = π - 2 * (π / k) := by field_simp
+    rw [this] at ha1; linarith
+  have hα0 : 0 < a / 2 := by linarith
+  have hα1 : a / 2 < π / 2 := by linarith
+  have hsα : 0 < Real.sin (a / 2) := Real.sin_pos_of_pos_of_lt_pi hα0 (by linarith [Real.pi_pos])
+  have hsγ : 0 < Real.sin (π / k) := Real.sin_pos_of_pos_of_lt_pi hγ0 (by linarith [Real.pi_pos])
+  have hcγ : 0 < Real.cos (π / k) :=
+    Real.cos_pos_of_mem_Ioo ⟨by linarith [Real.pi_pos], by linarith [Real.pi_pos]⟩
+  -- cos(a/2) > sin(π/k) = cos(π/2 - π/k)
+  have hcs : Real.sin (π / k) < Real.cos (a / 2) := by
+    rw [← Real.cos_pi_div_two_sub]
+    apply Real.cos_lt_cos_of_nonneg_of_le_pi_div_two hα0.le (by linarith) (by linarith)
+  have hterm : 0 ≤ (Real.cos (a / 2) ^ 2 - Real.sin (π / k) ^ 2)
+      / ((Real.sin (a / 2) * Real.sin (π / k)) ^ 2) := by
+    apply div_nonneg _ (by positivity)
+    nlinarith
+  unfold polyAngle polyRadius
+  rw [Real.sinh_arsinh, mul_pow (Real.sin (π / k)), Real.sq_sqrt hterm]
+  have hkey : 1 + Real.sin (π / k) ^ 2 * ((Real.cos (a / 2) ^ 2 - Real.sin (π / k) ^ 2)
+      / ((Real.sin (a / 2) * Real.sin (π / k)) ^ 2))
+      = (Real.cos (π / k) / Real.sin (a / 2)) ^ 2 := by
+    have h1 := Real.sin_sq_add_cos_sq (a / 2)
+    have h2 := Real.sin_sq_add_cos_sq (π / k)
+    field_simp
+    nlinarith
+  rw [hkey, Real.sqrt_sq (by positivity)]
+  have : Real.cos (π / k) / (Real.cos (π / k) / Real.sin (a / 2)) = Real.sin (a / 2) := by
+    field_simp
+  rw [this, Real.arcsin_sin (by linarith) hα1.le]; ring
+
+end real
+
+/-! ## non-vacuity -/
+
+/-- a unit timelike base point with a unit tangent vector orthogonal to it, in `R^{2,1}` -/
+example : mink (![5/3, 4/3, 0] : Fin 3 → ℚ) ![5/3, 4/3, 0] = -1 ∧
+    mink (![4/3, 5/3, 0] : Fin 3 → ℚ) ![4/3, 5/3, 0] = 1 ∧
+    mink (![5/3, 4/3, 0] : Fin 3 → ℚ) ![4/3, 5/3, 0] = 0 := by
+  refine ⟨?_, ?_, ?_⟩ <;> simp [mink, dot, Fin.sum_univ_succ, Fin.tail] <;> norm_num
+
+/-- rational `(cosh, sinh)` and `(cos, sin)` data -/
+example : (5 / 4 : ℚ) ^ 2 - (3 / 4) ^ 2 = 1 ∧ (3 / 5 : ℚ) ^ 2 + (4 / 5) ^ 2 = 1 := by norm_num
+
+/-- admissible polygon data: a square (`g = sin²(π/4) = 1/2`) with `S = sinh² r = 2` -/
+example : (0 : ℚ) < 2 ∧ (1 / 2 : ℚ) < 1 ∧ ((2 / 3 : ℚ) = 2 / (1 + 2)) := by norm_num
 
 end GT.C13
